@@ -50,6 +50,7 @@ def run(facts, rep, tier):
     run_d6(facts, rep, tier)
     run_d7(facts, rep, tier)
     run_d8(facts, rep, tier)
+    run_d9(facts, rep, tier)
     # ------------------------------------------------------------ consumption of Result<_, ()>
     n = 0
     for h in c.user_fns():
@@ -710,3 +711,70 @@ def run_d8(facts, rep, tier):
                            "the two halves of `%s` are %s: the test is made in one direction only, so the answer depends on which subschema comes first" % (src(n)[:80], "the same expression" if t1 == t2 else "not mirror images"), n.get("sp"))
                     k_in += 1
     rep.floor("C09.D8", "pairs of lets computed per operand", n8, 1)
+
+
+# ---------------------------------------------------------------- D9 two positions that are compared index the same sequence
+def run_d9(facts, rep, tier):
+    """`xs.iter().enumerate()` hands out positions in `xs`. Where two such positions are compared (`i != j`, "every other
+    alternative"), both must come from enumerations of the same sequence: a position in a filtered copy compared with a
+    position in the original excludes the wrong element (e.g. an alternative ends up conjoined with its own negation)."""
+    from lib import scope_binding, _anc_index
+    c = facts.impl
+    n9 = 0
+    n_half = 0
+    for h in c.user_fns():
+        cn = None
+        for n, anc in walk(h["body"]):
+            if not (n.get("k") == "bin" and n.get("op") in ("Eq", "Ne")):
+                continue
+            sides = []
+            for e in (n["l"], n["r"]):
+                e0 = strip_refs(e)
+                while isinstance(e0, dict) and e0.get("k") == "un" and e0.get("op") == "Deref":
+                    e0 = strip_refs(e0["e"])
+                if not (isinstance(e0, dict) and e0.get("k") == "path" and e0.get("res") == "local"):
+                    break
+                b = scope_binding(h, _anc_index(h).get(id(e0), ()), e0["path"], e0)
+                if not b or b[0] != "closure":
+                    break
+                clo, par, pi = b[1], b[2], b[3]
+                pat = clo["params"][pi]
+                # first component of the tuple parameter of an adaptor applied to `<recv>.enumerate()`
+                first = None
+                pp = pat
+                while pp.get("k") == "ref" and isinstance(pp.get("pat"), dict):
+                    pp = pp["pat"]
+                if pp.get("k") == "tuple" and pp["pats"]:
+                    f0 = pp["pats"][0]
+                    while f0.get("k") == "ref" and isinstance(f0.get("pat"), dict):
+                        f0 = f0["pat"]
+                    if f0.get("k") == "bind" and f0["name"] == e0["path"]:
+                        first = True
+                if not first or par.get("k") != "mcall":
+                    break
+                # walk the receiver chain down to the enumerate()
+                r = par.get("recv")
+                enum_recv = None
+                hops = 0
+                while isinstance(r, dict) and r.get("k") == "mcall" and hops < 6:
+                    if r["name"] == "enumerate":
+                        enum_recv = r["recv"]
+                        break
+                    if r["name"] in ("filter", "filter_map", "skip", "skip_while", "rev", "take", "step_by", "chain", "zip", "flat_map"):
+                        break  # positions no longer line up with the enumerate below
+                    r = r.get("recv")
+                    hops += 1
+                if enum_recv is None:
+                    break
+                cn = cn or Canon(c, h, 4)
+                sides.append(cn.r(enum_recv))
+            if len(sides) != 2:
+                n_half += 1 if sides else 0   # one side is a position carried along in a tuple: nothing to compare, but the site exists
+                continue
+            n9 += 1
+            n_half += 1
+            ok = sides[0] == sides[1]
+            key = "%s#%d" % (h["fn"], sum(1 for o in rep.obligations if o["key"].startswith("C09.D9/index-spaces-agree:%s#" % h["fn"])))
+            rep.ob("C09.D9", "index-spaces-agree:" + key, ok, "both positions enumerate `%s`" % sides[0][:60] if ok else
+                   "`%s` compares a position in `%s` with a position in `%s`: the two sequences differ (one is a filtered / rebuilt copy of the other), so 'every other element' excludes the wrong one" % (src(n)[:40], sides[0][-70:], sides[1][-70:]), n.get("sp"))
+    rep.floor("C09.D9", "comparisons involving an enumeration position", n_half, 1)
